@@ -893,7 +893,7 @@ func genHistCase(t *rapid.T) HistCase {
 
 func TestHistory(t *testing.T) {
 	pbt.Run(t, pbt.Sub[HistCase]{
-		Name: "history", Quick: 40000, Thorough: 1500000,
+		Name: "history", Quick: 40000, Thorough: 1200000,
 		Gen:   genHistCase,
 		Check: checkHistory,
 	})
